@@ -41,6 +41,7 @@ type C17 struct {
 	StartIdx    int            `json:"start_idx"`             // level the device starts in
 	UserDefault int            `json:"user_default"`          // >= 0: the user passes WithDefaultDesiredPriv(level[UserDefault])
 	UserFailed  []string       `json:"user_failed,omitempty"` // user-level failed-when-contains layered on top
+	UserLevels  bool           `json:"user_levels,omitempty"` // static part: the user's own privilege levels layered on top
 	Secret      string         `json:"secret"`
 	DevSeed     uint64         `json:"dev_seed"`
 	// Cwd: the process runs in a directory that holds an entry named like the platform ("dir": a
@@ -96,6 +97,7 @@ func genC17(seed uint64, run int, tier string) Scenario {
 	if r.IntN(3) == 0 {
 		sc.UserFailed = []string{"user-level failure string"}
 	}
+	sc.UserLevels = kernel.Stream(rs, "userlevels").IntN(3) == 0
 	sc.Secret = genSecret(r, "en-")
 	sc.DevSeed = r.Uint64()
 	if r.IntN(8) == 0 {
@@ -291,6 +293,35 @@ func runC17(env *Env, s Scenario) {
 	}
 	if len(sc.UserFailed) > 0 && strings.Join(nd.FailedWhenContains, "|") != strings.Join(sc.UserFailed, "|") {
 		fail("user-option-does-not-win", "user failed-when-contains %v, driver has %v", sc.UserFailed, nd.FailedWhenContains)
+	}
+	if sc.UserLevels {
+		// the user's own privilege levels (the definition's tree under names of their own) layered
+		// on top: the driver then has exactly those levels
+		custom := map[string]*network.PrivilegeLevel{}
+		var cn []string
+		for _, n := range names {
+			c := *levels[n]
+			c.Name = "u_" + n
+			if c.PreviousPriv != "" {
+				c.PreviousPriv = "u_" + c.PreviousPriv
+			}
+			custom[c.Name] = &c
+			cn = append(cn, c.Name)
+		}
+		if p2, err := build(options.WithPrivilegeLevels(custom), options.WithDefaultDesiredPriv("u_"+nd.DefaultDesiredPriv)); err != nil {
+			fail("user-levels-do-not-load", "the definition with the user's own privilege levels on top failed to load: %v", err)
+		} else if nd2, err := p2.GetNetworkDriver(); err == nil && nd2 != nil {
+			var got []string
+			for n := range nd2.PrivilegeLevels {
+				got = append(got, n)
+			}
+			sort.Strings(got)
+			sort.Strings(cn)
+			if strings.Join(got, ",") != strings.Join(cn, ",") {
+				fail("user-option-does-not-win", "user privilege levels %v, driver has %v", cn, got)
+			}
+			env.Probe("user-privilege-levels-layered")
+		}
 	}
 	// single tree, default level exists
 	roots := 0
@@ -529,19 +560,22 @@ func runC17(env *Env, s Scenario) {
 	for _, n := range names {
 		parentOf[n] = levels[n].PreviousPriv
 	}
-	clearPath := func(a, b string) bool {
+	// (tracked: the driver itself has just acquired level a, so it knows where it is although the
+	// prompt does not say so -- the remembered level is its documented tie-break)
+	clearPathFrom := func(a, b string, tracked bool) bool {
 		if !reach(a, b) {
 			return false
 		}
 		p := (&privTree{Parent: parentOf}).path(a, b)
 		for i, x := range p {
-			if i < len(p)-1 && ambiguous[x] {
+			if i < len(p)-1 && ambiguous[x] && !(i == 0 && tracked) {
 				return false
 			}
 		}
 
 		return true
 	}
+	clearPath := func(a, b string) bool { return clearPathFrom(a, b, false) }
 	start := names[sc.StartIdx%len(names)]
 	if !clearPath(start, nd.DefaultDesiredPriv) {
 		start = nd.DefaultDesiredPriv
@@ -580,10 +614,14 @@ func runC17(env *Env, s Scenario) {
 		}
 		openMode, openLog = dev.State()
 		cur := nd.DefaultDesiredPriv
+		tracked := false
 		for _, wi := range sc.Walk {
 			t := names[wi%len(names)]
-			if !clearPath(cur, t) {
+			if !clearPathFrom(cur, t, tracked) {
 				continue
+			}
+			if tracked && ambiguous[cur] {
+				env.Probe("walk-from-a-level-known-only-by-memory")
 			}
 			st := step{target: t}
 			env.Call("AcquirePriv", func() { st.err = nd.AcquirePriv(t) })
@@ -593,9 +631,10 @@ func runC17(env *Env, s Scenario) {
 				return
 			}
 			cur = t
+			tracked = true
 		}
 		_, closeLogStart = dev.State()
-		closeReachable = clearPath(cur, nd.DefaultDesiredPriv)
+		closeReachable = clearPathFrom(cur, nd.DefaultDesiredPriv, tracked)
 		env.Call("Close", func() { closeErr = nd.Close() })
 	})
 	out := env.K.Run(done, 3600*time.Second, 20*rd+time.Millisecond)
